@@ -7,7 +7,8 @@
     `LOG10(`) nor by `!` (a sheet name such as `AB1!`) nor by `[` (a table name such as `Tbl1[`);
     everything inside `"…"` or `'…'` is opaque, and so is a bracketed span `[…]` (the specifier of a
     structured reference `Table1[[#This Row],[Q1]]`, or a workbook index `[1]`): brackets nest, and
-    inside them `'` escapes the next character (`'[`, `']`, `'#`, `''`).
+    inside them `'` escapes the next character, WHATEVER it is (`'[`, `']`, `'#`, `'@`, and `''` — an
+    apostrophe escapes an apostrophe, so a column name ending in `''` is followed by its real closing `]`).
 
     This file is independent of the model (`Model/SharedFormula.lean`): column letters are given
     in closed form, decimals by Lean's own `Nat.repr`. -/
